@@ -182,6 +182,7 @@ def p_C05(ctx):
     ctx.replay(r.cases_path, attr_hist, profile="dev", elem="elem", cap=1, label="edges")
     ctx.replay(r.cases_path, attr_hist, profile="release", elem="elem", cap=0, label="edges")
     ctx.replay(r.cases_path, attr_hist, profile="release", elem="zst", cap=0, label="edges")
+    ctx.replay(r.cases_path, attr_hist, profile="release", elem="elem40", cap=1, label="edges")     # drop glue AND wider than two words
     if not ctx.quick:
         ctx.replay(r.cases_path, attr_hist, profile="dev", elem="zst", cap=1, label="edges")
         ctx.replay(r.cases_path, attr_hist, profile="dev", elem="elem", cap=2, label="edges")
@@ -227,7 +228,7 @@ def p_C06(ctx):
     ctx.count_nontrivial(r.cases_path, hist_key)
     ctx.sample_from(r.cases_path)
     combos = [("dev", "elem", 0), ("dev", "elem", 1), ("release", "u32", 1), ("release", "elem", 2), ("dev", "zst", 0), ("release", "zst", 1),
-              ("release", "tok", 0)]
+              ("release", "tok", 0), ("release", "w24", 1), ("release", "w64k", 0), ("dev", "elem40", 0)]
     if not ctx.quick:
         combos += [("dev", "u32", 0), ("dev", "u32", 2), ("release", "elem", 0), ("release", "elem", 1), ("dev", "elem", 2), ("dev", "tok", 1)]
     for prof, elem, cap in combos:
@@ -252,7 +253,9 @@ def p_C07(ctx):
     core.filter_cases(r.cases_path, sel, lambda c: c["steps"][-1]["op"] in REMOVE_OPS or hist_drain_kind(c, len(c["steps"]) - 1) == "drain")
     ctx.count_nontrivial(sel, lambda c: [c["steps"][-1]["op"], c["steps"][-1]["a"], [(s["op"], s["a"]) for s in c["steps"][:-1]][-6:]])
     ctx.sample_from(sel)
-    combos = [("dev", "elem", 0), ("dev", "elem", 1), ("release", "u32", 1), ("release", "elem", 2), ("dev", "zst", 0)]
+    # w8 / w24: one and three machine words (u64-, String-like layouts); elem40: drop glue and wider than two words
+    combos = [("dev", "elem", 0), ("dev", "elem", 1), ("release", "u32", 1), ("release", "elem", 2), ("dev", "zst", 0),
+              ("release", "w8", 1), ("release", "w24", 0), ("release", "elem40", 0)]
     if not ctx.quick:
         combos += [("dev", "u32", 0), ("release", "zst", 1), ("release", "elem", 0), ("dev", "elem", 2)]
     for prof, elem, cap in combos:
@@ -474,9 +477,9 @@ def p_C13(ctx):
     r = acc_tlc(ctx, "prims", ["prim"], shapes, kinds=("owned", "plain", "torus", "slice_m"), depth=1,
                 bigs=(BIG_MAX, BIG_WRAP) if ctx.quick else (BIG_MAX, BIG_HALF1, BIG_P32, BIG_WRAP), workers=8 if ctx.quick else 12)
     # b3 / b1 / w80: Copy element types of 3, 1 and 80 bytes (word-at-a-time, memset and "large element" fast paths)
-    combos = [("dev", "u32"), ("release", "elem"), ("dev", "elem"), ("release", "b3"), ("release", "b1"), ("release", "w80"), ("dev", "a128")]
+    combos = [("dev", "u32"), ("release", "elem"), ("dev", "elem"), ("release", "b3"), ("release", "b1"), ("release", "w80"), ("dev", "a128"), ("release", "w8")]
     if not ctx.quick:
-        combos += [("release", "u32"), ("dev", "zst"), ("dev", "b3"), ("dev", "b1"), ("dev", "w80")]
+        combos += [("release", "u32"), ("dev", "zst"), ("dev", "b3"), ("dev", "b1"), ("dev", "w80"), ("release", "w24")]
     acc_replays(ctx, r, combos, "prims")
     acc_random(ctx, ["prim"], 3000 if ctx.quick else 40000, 12, profile="dev")
     acc_random(ctx, ["prim"], 2000 if ctx.quick else 20000, 12, profile="release", elem="elem", label="big-elem")
@@ -495,7 +498,7 @@ def p_C14(ctx):
     r = acc_tlc(ctx, "copies", ["copy"], shapes, kinds=("owned", "plain", "slice_m"), depth=1,
                 bigs=(BIG_MAX,) if ctx.quick else (BIG_MAX, BIG_HALF1, BIG_WRAP), workers=8 if ctx.quick else 12)
     # z0: zero-sized Copy cells (nothing to move, every check must still be made); a128: alignment 128 (dev: std's pointer checks)
-    combos = [("dev", "u32"), ("release", "b3"), ("dev", "elem"), ("release", "w80"), ("release", "b1"), ("release", "z0"), ("dev", "a128")] + ([] if ctx.quick else [("release", "u32"), ("dev", "b3"), ("dev", "w80")])
+    combos = [("dev", "u32"), ("release", "b3"), ("dev", "elem"), ("release", "w80"), ("release", "b1"), ("release", "z0"), ("dev", "a128"), ("release", "w8"), ("release", "w24")] + ([] if ctx.quick else [("release", "u32"), ("dev", "b3"), ("dev", "w80")])
     acc_replays(ctx, r, combos, "copies")
     acc_random(ctx, ["copy"], 9000 if ctx.quick else 80000, 12, profile="dev", large_share=0.4)
     acc_random(ctx, ["copy"], 6000 if ctx.quick else 40000, 12, profile="release", label="big-rel", large_share=0.4)
@@ -513,11 +516,12 @@ def p_C15(ctx):
     r = acc_tlc(ctx, "moves-owned", ["move"], big_shapes, kinds=("owned", "plain"), depth=0, workers=8)
     acc_replays(ctx, r, [("dev", "u32"), ("release", "elem"), ("release", "w80"), ("dev", "a128")], "moves-owned")
     r2 = acc_tlc(ctx, "moves-views", ["move"], [13, 31, 23, 32, 33] if ctx.quick else ALL_SHAPES4, kinds=("owned", "slice_m"), depth=1, workers=8)
-    acc_replays(ctx, r2, [("dev", "u32"), ("release", "b3"), ("dev", "elem"), ("release", "b1"), ("release", "w80"), ("dev", "a128"), ("release", "z0")], "moves-views")
+    acc_replays(ctx, r2, [("dev", "u32"), ("release", "b3"), ("dev", "elem"), ("release", "b1"), ("release", "w80"), ("dev", "a128"), ("release", "z0"), ("release", "w8")], "moves-views")
     acc_random(ctx, ["move"], 4000 if ctx.quick else 60000, 16, profile="dev")
     acc_random(ctx, ["move"], 2000 if ctx.quick else 30000, 16, profile="release", elem="elem", label="big-elem")
     # 1 KiB elements: rows of a few dozen cells are already "larger than the cache" for any byte-size-gated path
     acc_random(ctx, ["move"], 1500 if ctx.quick else 20000, 16, profile="release", elem="w1k", label="kib-elem", large_share=0.4)
+    afail_stage(ctx, ("translate", "flip_rows", "flip_cols"))
 
 
 def sort_pipeline(ctx, by):
@@ -527,7 +531,7 @@ def sort_pipeline(ctx, by):
     shapes = [0, 11, 13, 31, 23, 32, 33, 14, 41] if ctx.quick else ALL_SHAPES4
     r = acc_tlc(ctx, "sorts", [grp], shapes, kinds=("owned", "plain", "slice_m"), depth=1,
                 bigs=(BIG_MAX, BIG_WRAP), workers=8 if ctx.quick else 12)
-    combos = [("dev", "u32"), ("release", "elem"), ("release", "b3"), ("release", "w80"), ("dev", "a128")]      # w80: an 80-byte element
+    combos = [("dev", "u32"), ("release", "elem"), ("release", "b3"), ("release", "w80"), ("dev", "a128"), ("release", "w24")]      # w80: an 80-byte element
     if not ctx.quick:
         combos += [("dev", "elem"), ("release", "u32"), ("dev", "b3"), ("dev", "w80")]
     acc_replays(ctx, r, combos, "sorts")
@@ -536,6 +540,7 @@ def sort_pipeline(ctx, by):
     acc_random(ctx, ["sort"], 3000 if ctx.quick else 40000, 14, profile="dev")
     acc_random(ctx, ["sort"], 1500 if ctx.quick else 20000, 14, profile="release", elem="b3", label="big-b3")
     acc_random(ctx, ["sort"], 800 if ctx.quick else 10000, 14, profile="release", elem="w1k", label="kib-elem")
+    afail_stage(ctx, ("sort_by_row", "sort_by_row_key", "sort_row_ord") if by == "row" else ("sort_by_col", "sort_by_col_key", "sort_col_ord"))
     n = 500 if ctx.quick else 5000
     for prof in ("dev", "release"):
         ctx.drive_and_validate("bigsorts", ["sort", ctx.seed + (0 if prof == "dev" else 7919), n, "{out}"], "SortTrace", attr_sort_event,
@@ -763,7 +768,7 @@ def p_C20(ctx):
     r = ctx.tlc_run("ctor", "CtorMC", cfg, workers=8)
     ctx.count_nontrivial(r.cases_path, lambda c: c)
     ctx.sample_from(r.cases_path)
-    for prof, elem in [("dev", "u32"), ("release", "u32"), ("dev", "elem"), ("release", "elem"), ("dev", "zst")]:
+    for prof, elem in [("dev", "u32"), ("release", "u32"), ("dev", "elem"), ("release", "elem"), ("dev", "zst"), ("release", "w4k"), ("release", "w24")]:
         ctx.replay(r.cases_path, attr_ctor, profile=prof, elem=elem, label="ctor")
     m = 3 if q else 4
     h = hist_tlc_edges(ctx, "conversions", m, m, ops=C20_HIST_OPS | DRAIN_OPS, workers=4)
@@ -773,7 +778,7 @@ def p_C20(ctx):
     ctx.count_nontrivial(sel, hist_key)
     ctx.sample_from(sel, 2)
     # tok: Clone but not Copy and without drop glue - conversions must CLONE (fresh identity), a bitwise copy is a second owner
-    for prof, elem, cap in [("dev", "elem", 0), ("release", "u32", 1), ("dev", "zst", 2), ("release", "elem", 2), ("release", "tok", 0)]:
+    for prof, elem, cap in [("dev", "elem", 0), ("release", "u32", 1), ("dev", "zst", 2), ("release", "elem", 2), ("release", "tok", 0), ("release", "w4k", 0), ("release", "elem40", 1)]:
         ctx.replay(sel, attr_hist, profile=prof, elem=elem, cap=cap, label="conversions")
 
 
@@ -858,6 +863,19 @@ def afail_overlay(src, dst, ops, ks=(0, 1), limit=None, seed=0):
         for c in out:
             fo.write(json.dumps(c) + "\n")
     return len(out)
+
+
+def afail_stage(ctx, ops, m=3):
+    """Memory exhaustion overlay for the calls of one property: every TLC edge of the history machine whose last call is in
+    `ops`, with the k-th allocation request of that call refused (k = 0, 1).  The process may end there; if it does not, the
+    call must mean what it always means (a fallback path taken only when memory is short is still the same operation)."""
+    r = hist_tlc_edges(ctx, "oom-edges", m, m, ops=tuple(ops))
+    ov = os.path.join(ctx.outdir, "oom.cases.ndjson")
+    n_ov = afail_overlay(r.cases_path, ov, set(ops), ks=(0, 1), limit=500 if ctx.quick else 8000, seed=ctx.seed)
+    core.REPLAY_STATS["oom_aborts"] = 0
+    ctx.replay(ov, attr_hist, profile="release", elem="elem", cap=0, label="oom")
+    ctx.notes.append("memory exhaustion overlay: %d cases, %d ended the process at the refused allocation (permitted)"
+                     % (n_ov, core.REPLAY_STATS.get("oom_aborts", 0)))
 
 
 def p_C11(ctx):
